@@ -132,8 +132,12 @@ func (f fileSpec) bytes() []byte {
 }
 
 type cliEnv struct {
-	Cache string `json:"cache"` // ok | none | unwritable | readonly
-	Tmp   string `json:"tmp"`   // ok | missing
+	Cache string `json:"cache"` // ok | none | unwritable | readonly | full
+	Tmp   string `json:"tmp"`   // ok | missing | full
+	// Room: with "full", how many bytes the file system of the cache
+	// directory / temp directory holds before it is full.
+	CacheRoom int `json:"cache_room,omitempty"`
+	TmpRoom   int `json:"tmp_room,omitempty"`
 }
 
 type runStep struct {
@@ -240,6 +244,15 @@ func newCliWorld(env cliEnv, keep bool) *simos.World {
 	w.MkdirAllRaw(cliHome)
 	if env.Tmp != "missing" {
 		w.MkdirAllRaw(cliTmp)
+	}
+	if env.Cache == "full" || env.Tmp == "full" {
+		w.Quota = map[string]int{}
+		if env.Cache == "full" {
+			w.Quota[cliCacheHome] = env.CacheRoom
+		}
+		if env.Tmp == "full" {
+			w.Quota[cliTmp] = env.TmpRoom
+		}
 	}
 	switch env.Cache {
 	case "unwritable":
@@ -663,14 +676,12 @@ func (x *cliExec) judge(s *stepInfo) {
 			if strings.HasPrefix(f, "kill") || f == "sink_limit" || f == "powerloss" {
 				continue
 			}
-			// An error on a write, create or close of a cache/temp file is
-			// something gts is told about and can react to (drop the entry):
-			// later steps stay under the strict oracle. An error on unlinking,
-			// reading, seeking or listing leaves it without a remedy; what
-			// follows those is tallied, not judged.
-			if !(strings.HasSuffix(f, "@write") || strings.HasSuffix(f, "@create") || strings.HasSuffix(f, "@close")) {
-				x.tainted = true
-			}
+			// Whatever I/O error a cache or temp file operation returned, gts
+			// was told about it: later steps stay under the strict oracle.
+			// (Round 1 tallied, without judging, what followed an error on
+			// unlink, read, seek or listing; that hid a failed run whose entry
+			// could not be unlinked and was finalised instead.)
+			_ = f
 		}
 		return
 	}
